@@ -31,6 +31,20 @@ static WALL_LIMIT_MS: AtomicUsize = AtomicUsize::new(10_000);
 
 thread_local! {
     static MY_SLOT: usize = NEXT_SLOT.fetch_add(1, Ordering::SeqCst) % NSLOTS;
+    static TAG: std::cell::RefCell<String> = const { std::cell::RefCell::new(String::new()) };
+}
+
+static BLOWN: OnceLock<Mutex<std::collections::HashSet<String>>> = OnceLock::new();
+
+/// Tag the statements this thread runs next (a fault group). When a tagged statement hangs or kills
+/// the process the tag is recorded, and `tag_blown` reports it in later attempts.
+pub fn set_tag(t: &str) {
+    TAG.with(|x| *x.borrow_mut() = t.chars().take(60).collect());
+}
+
+pub fn tag_blown(t: &str) -> bool {
+    let _ = skip_map();
+    BLOWN.get().map(|b| b.lock().unwrap().contains(&t.chars().take(60).collect::<String>())).unwrap_or(false)
 }
 
 fn now_ms() -> u64 {
@@ -63,6 +77,7 @@ fn fnv(s: &str) -> u64 {
 fn skip_map() -> &'static Mutex<HashMap<u64, String>> {
     SKIP.get_or_init(|| {
         let mut m = HashMap::new();
+        let mut blown = std::collections::HashSet::new();
         if let Ok(p) = std::env::var("VERIF_SKIP_FILE") {
             if let Ok(s) = std::fs::read_to_string(p) {
                 for line in s.lines() {
@@ -70,22 +85,28 @@ fn skip_map() -> &'static Mutex<HashMap<u64, String>> {
                         if let (Some(h), Some(kind)) = (v["hash"].as_str().and_then(|h| h.parse::<u64>().ok()), v["kind"].as_str()) {
                             m.insert(h, kind.to_string());
                         }
+                        if let Some(t) = v["tag"].as_str() {
+                            if !t.is_empty() {
+                                blown.insert(t.to_string());
+                            }
+                        }
                     }
                 }
             }
         }
+        let _ = BLOWN.set(Mutex::new(blown));
         Mutex::new(m)
     })
 }
 
 /// If this statement was recorded as hanging/aborting in an earlier attempt,
 /// returns the kind ("hang" | "abort").
-pub fn skipped(sql: &str) -> Option<String> {
+pub fn skipped(sql: &str, ctx: u64) -> Option<String> {
     let m = skip_map().lock().unwrap();
     if m.is_empty() {
         return None;
     }
-    m.get(&fnv(sql)).cloned()
+    m.get(&(fnv(sql) ^ ctx.wrapping_mul(0x9E3779B97F4A7C15))).cloned()
 }
 
 fn shared() -> Option<&'static Shared> {
@@ -100,16 +121,23 @@ fn shared() -> Option<&'static Shared> {
         .as_ref()
 }
 
-pub fn enter(sql: &str) {
+pub fn enter(sql: &str, ctx: u64) {
     if let Some(sh) = shared() {
         MY_SLOT.with(|&s| unsafe {
             let p = sh.base.add(s * SLOT);
             let bytes = sql.as_bytes();
-            let n = bytes.len().min(SLOT - 24);
-            std::ptr::copy_nonoverlapping(bytes.as_ptr(), p.add(24), n);
+            let n = bytes.len().min(SLOT - 96);
+            std::ptr::copy_nonoverlapping(bytes.as_ptr(), p.add(96), n);
+            TAG.with(|t| {
+                let t = t.borrow();
+                let tb = t.as_bytes();
+                let k = tb.len().min(63);
+                std::ptr::write_bytes(p.add(24), 0, 64);
+                std::ptr::copy_nonoverlapping(tb.as_ptr(), p.add(24), k);
+            });
             std::ptr::write_volatile(p.add(8) as *mut u32, n as u32);
             std::ptr::write_volatile(p.add(12) as *mut u32, if bytes.len() > n { 1 } else { 0 });
-            std::ptr::write_volatile(p.add(16) as *mut u64, fnv(sql));
+            std::ptr::write_volatile(p.add(16) as *mut u64, fnv(sql) ^ ctx.wrapping_mul(0x9E3779B97F4A7C15));
             std::ptr::write_volatile(p as *mut u64, now_ms());
         });
     }
@@ -123,7 +151,7 @@ pub fn leave() {
     }
 }
 
-fn read_slots(base: *mut u8) -> Vec<(u64, String, u64)> {
+fn read_slots(base: *mut u8) -> Vec<(u64, String, u64, String)> {
     let mut out = Vec::new();
     for s in 0..NSLOTS {
         unsafe {
@@ -132,18 +160,20 @@ fn read_slots(base: *mut u8) -> Vec<(u64, String, u64)> {
             if t == 0 {
                 continue;
             }
-            let n = (std::ptr::read_volatile(p.add(8) as *const u32) as usize).min(SLOT - 24);
+            let n = (std::ptr::read_volatile(p.add(8) as *const u32) as usize).min(SLOT - 96);
             let hash = std::ptr::read_volatile(p.add(16) as *const u64);
-            let bytes = std::slice::from_raw_parts(p.add(24), n);
-            out.push((t, String::from_utf8_lossy(bytes).to_string(), hash));
+            let bytes = std::slice::from_raw_parts(p.add(96), n);
+            let tagb = std::slice::from_raw_parts(p.add(24), 64);
+            let tag = String::from_utf8_lossy(&tagb[..tagb.iter().position(|x| *x == 0).unwrap_or(64)]).to_string();
+            out.push((t, String::from_utf8_lossy(bytes).to_string(), hash, tag));
         }
     }
     out
 }
 
-fn record_skip(sql: &str, hash: u64, kind: &str) {
+fn record_skip(sql: &str, hash: u64, kind: &str, tag: &str) {
     if let Ok(p) = std::env::var("VERIF_SKIP_FILE") {
-        record_skip_to(std::path::Path::new(&p), sql, hash, kind);
+        record_skip_to(std::path::Path::new(&p), sql, hash, kind, tag);
     }
 }
 
@@ -152,9 +182,9 @@ fn watchdog(sh: usize) {
         std::thread::sleep(std::time::Duration::from_millis(200));
         let limit = WALL_LIMIT_MS.load(Ordering::SeqCst) as u64;
         let now = now_ms();
-        for (t, sql, hash) in read_slots(sh as *mut u8) {
+        for (t, sql, hash, tag) in read_slots(sh as *mut u8) {
             if now.saturating_sub(t) > limit {
-                record_skip(&sql, hash, "hang");
+                record_skip(&sql, hash, "hang", &tag);
                 eprintln!("verif-guard: statement exceeded the {limit} ms wall limit, restarting without it: {}", crate::infra::one_line(&sql, 200));
                 std::process::exit(3);
             }
@@ -208,7 +238,7 @@ pub fn supervise(args: &[String]) -> i32 {
                 // killed by a signal: attribute to the statement(s) in flight
                 let slots = read_slots(base);
                 if slots.len() == 1 {
-                    record_skip_to(&skip, &slots[0].1, slots[0].2, "abort");
+                    record_skip_to(&skip, &slots[0].1, slots[0].2, "abort", &slots[0].3);
                     eprintln!("verif-guard: child died ({status}); in-flight statement recorded as abort: {}", crate::infra::one_line(&slots[0].1, 200));
                     force_single = false;
                     continue;
@@ -228,8 +258,8 @@ pub fn supervise(args: &[String]) -> i32 {
     code
 }
 
-fn record_skip_to(path: &std::path::Path, sql: &str, hash: u64, kind: &str) {
+fn record_skip_to(path: &std::path::Path, sql: &str, hash: u64, kind: &str, tag: &str) {
     if let Ok(mut f) = OpenOptions::new().create(true).append(true).open(path) {
-        let _ = writeln!(f, "{}", serde_json::json!({"hash": hash.to_string(), "sql": crate::infra::one_line(sql, 300), "kind": kind}));
+        let _ = writeln!(f, "{}", serde_json::json!({"hash": hash.to_string(), "sql": crate::infra::one_line(sql, 300), "kind": kind, "tag": tag}));
     }
 }
